@@ -42,6 +42,7 @@ type Ctx struct {
 	// (wall-clock) time is reported as the violation "input-blowup".
 	WallGuard time.Duration
 	WallNote  string
+	frozen    bool // set by the watchdog: the run uses no CPU and does not end
 }
 
 // Choose draws from the decision stream.
@@ -141,7 +142,15 @@ var onBlowup func(c *Ctx, sc Scenario, st *simrt.Stream, idx int, wall time.Dura
 // that never reaches a scheduling point.
 const runawayCPU = 120 * time.Second
 
+// frozenAfter: a worker runs one simulated run at a time and is never idle
+// while it does; one that uses no CPU at all for this long is blocked outside
+// the simulator (on a busy machine a starved process still gets some CPU).
+const frozenAfter = 45 * time.Second
+
 func blowupKey(c *Ctx) string {
+	if c.frozen {
+		return "run-does-not-terminate"
+	}
 	if c.WallGuard > 0 {
 		return "input-blowup"
 	}
@@ -149,6 +158,9 @@ func blowupKey(c *Ctx) string {
 }
 
 func blowupMessage(c *Ctx, cpu time.Duration) string {
+	if c.frozen {
+		return fmt.Sprintf("the run stopped making progress without using the CPU (%.1f s used, then idle for %v): a goroutine is blocked for good on something the simulator does not manage - for example database/sql's lock on a result set, still held after a panic inside Scan, when the deferred Close wants it", cpu.Seconds(), frozenAfter)
+	}
 	if c.WallGuard == 0 {
 		return fmt.Sprintf("the run was still going after %.0f s of CPU time: some task loops without ever reaching a scheduling point (no simulated run needs more than a few seconds)", cpu.Seconds())
 	}
@@ -183,12 +195,20 @@ func runOne(t *testing.T, prop, tier string, sc Scenario, st *simrt.Stream, log 
 	go func() {
 		tick := time.NewTicker(500 * time.Millisecond)
 		defer tick.Stop()
+		markCPU, markAt := cpu0, time.Now()
 		for {
 			select {
 			case <-stopWatch:
 				return
 			case <-tick.C:
 				used := cpuTime() - cpu0
+				if now := cpuTime(); now-markCPU > 100*time.Millisecond {
+					markCPU, markAt = now, time.Now()
+				} else if onBlowup != nil && time.Since(markAt) > frozenAfter {
+					c.frozen = true
+					onBlowup(c, sc, st, idx, used)
+					return
+				}
 				if g := c.WallGuard; onBlowup != nil && ((g > 0 && used > 8*g) || used > runawayCPU) {
 					onBlowup(c, sc, st, idx, used)
 					return
